@@ -592,6 +592,9 @@ def twin_configs(tier):
 
 
 def _worker(task):
+    if task[0] == 'C20meth':
+        from . import c20meth
+        return c20meth.run_task(task)
     prop, cfg, mode, depth, states, budget, tier = task
     mk = make_monitors_for(prop)
     evs = ev_for(prop, cfg, tier)
@@ -629,6 +632,9 @@ def run(prop, tier, seed):
             if cfg['backend'].split(':')[-1] in cachemc.PERSISTENT:
                 continue
             tasks.append((prop, cfg, 'dfs', dfs, 0, None, tier))
+    if prop == 'C20':
+        from . import c20meth
+        tasks += c20meth.tasks(tier)
     for res in pool.run_configs(_worker, tasks, seed=seed):
         rep.merge(res)
     rep.extra['bounds'] = {'bfs_depth_cap': depth, 'bfs_state_cap': states,
